@@ -2,6 +2,7 @@ package main
 
 import (
 	"encoding/json"
+	"fmt"
 	"os"
 	"path/filepath"
 	"strings"
@@ -182,6 +183,33 @@ func init() {
 		run: func(c *Ctx) {
 			famParseSpec(c, 120000*c.Scale)
 			famConfusables(c)
+			// every byte 0x00..0xFF (alone, and as an escape) at every position class of a URL text, special and non-special,
+			// absolute and as a reference: a character-class boundary of any state is met in isolation
+			{
+				shapes := []string{"%s://u@h/p", "sc%s://h/p", "http://a%sb:p@h/", "http://u:p%sw@h/", "http://h%sk/", "sc://h%sk/", "http://h:8%s1/", "http://h/a%sb/c", "sc://h/a%sb", "sc:a%sb",
+					"http://h/?a%sb", "sc://h?a%sb", "http://h/#a%sb", "file://h%sk/p", "file:///a%sb", "%sfile:///p", "http:%s//h/p", "http://h/p%s"}
+				refs := []string{"a%sb", "/a%sb", "//h%sk/p", "?a%sb", "#a%sb", "..%s/x", "%s"}
+				nAbs := 256 * len(shapes) * 2
+				nRef := 256 * len(refs) * 2
+				c.Pool.RunBoth(nAbs+nRef, func(d, sd *Driver, i int) {
+					var bp *string
+					var in string
+					b := string([]byte{byte(i % 256)})
+					if (i/256)%2 == 1 {
+						b = fmt.Sprintf("%%%02X", i%256)
+					}
+					if i < nAbs {
+						in = strings.Replace(shapes[i/512], "%s", b, 1)
+					} else {
+						k := (i - nAbs) / 512
+						in = strings.Replace(refs[k], "%s", b, 1)
+						bs := []string{"http://bh/bd/bf?bq#bf", "sc://bh/bd/bf?bq", "file:///C:/bd/bf"}[(i/256)%3]
+						bp = &bs
+					}
+					io := c.cmpParse(d, defaultCfg, bp, in, allFields, true, "byte-positions", i)
+					c.checkAgainstSpec(sd, bp, in, io, "byte-positions", i)
+				})
+			}
 			// length boundaries: every repetition family of C20 at the sizes around powers of two and other round limits (the
 			// standard knows no length limit anywhere): implementation = model = Spec
 			{
